@@ -31,7 +31,7 @@ def parse_case(case):
                 f += [0] * (5 - len(f))
                 tasks.append({"id": f[0], "prio": f[1], "tag": f[2], "hi": f[3], "rnd": f[4]})
             ops.append((w[0], int(w[1]), int(w[2]), tasks))
-        elif w[0] in ("L", "N"):
+        elif w[0] in ("L", "N", "F"):
             ops.append((w[0], int(w[1])))
         elif w[0] == "D":
             ops.append(("D",))
@@ -81,11 +81,28 @@ def fmt_case(mod, n, ops):
     for o in ops:
         if o[0] in ("S", "V"):
             out.append("%s %d %d %s" % (o[0], o[1], o[2], " ".join(fmt_task(t) for t in o[3])))
-        elif o[0] in ("L", "N"):
+        elif o[0] in ("L", "N", "F"):
             out.append("%s %d" % (o[0], o[1]))
         else:
             out.append("D")
     return " | ".join(out)
+
+
+def stale_flush(ops):
+    """does the history call flush_private on a stream whose next_task may have been retained from a ring of
+    two or more tasks (the retained task then still points into that ring)?  Static, conservative."""
+    stale = {}
+    for o in ops:
+        if o[0] == "V" and o[1] >= 0 and o[2] == 0 and len(o[3]) >= 2:
+            stale[o[1]] = True
+        elif o[0] == "N":
+            stale[o[1]] = False
+        elif o[0] == "D":
+            stale = {}
+        elif o[0] == "F":
+            if stale.get(o[1]):
+                return True
+    return False
 
 
 class SchedCheck(Check):
@@ -102,7 +119,7 @@ class SchedCheck(Check):
 
     def impl_timeout(self):
         # per process (one group of cases); a hang (e.g. a cycle in a corrupted list) is treated like a crash
-        return 25 if self.tier == "quick" else 300
+        return 180 if self.tier == "quick" else 900
 
     # ---- one process per (module, stream count) ---------------------------
     def _groups(self, casefile):
@@ -223,7 +240,11 @@ class SchedCheck(Check):
                 else:
                     ops.append(("S", es, d, ring))
             elif x < 97:
-                ops.append((r.pick(["L", "L", "N"]) if vp_ops else "L", r.below(n)))
+                k = r.pick(["L", "L", "N", "F"]) if vp_ops else "L"
+                es = r.below(n)
+                if k == "F" and stale_flush(ops + [("F", es)]):
+                    k = "N"           # flush_private is only exercised where the retained task is a singleton ring
+                ops.append((k, es))
             else:
                 ops.append(("D",))
         ops.append(("D",))
